@@ -72,8 +72,9 @@ Definition rec_union (rec : ty -> result RecResult) (ts : list ty) (m : mark) : 
   let tys0 := fst r in
   let tys := if ty_mem TBool tys0 && ty_mem TBoolFix tys0 then ty_remove TBoolFix tys0 else tys0 in
   match tys with
+  | [] => Ok (tys, RE [m] [] (snd r))
   | [_] => Ok (tys, rec_ok)
-  | _ => Ok (tys, RE [m] [] (snd r))
+  | _ => Ok (tys, RE [m] [] [])          (* several members match: the ambiguity itself is the error (fix 8ba5adb) *)
   end.
 
 (* ---- UnknownNode.require_* : the instruction set of custom recognisers ---- *)
@@ -288,8 +289,8 @@ Section rec.
                 (* several candidates: an explicit tag may pick one *)
                 match class_of_tag reg (ntag n) with
                 | Some kt => if ty_mem (TClass (c_name kt)) found then Ok ([TClass (c_name kt)], rec_ok)
-                             else Ok (found, RE [nmark n] [] causes)
-                | None => Ok (found, RE [nmark n] [] causes)
+                             else Ok (found, RE [nmark n] [] [])
+                | None => Ok (found, RE [nmark n] [] [])
                 end
             end
         end
